@@ -10,6 +10,7 @@ frag.count <r12|r34|r1> <conf 0|1> <len>        -> <blocks> <pad>
 frag.full  <rate> <k> <cc> <payload hex> <crc32 field> <crc9 table> <hdr btf> <hdr a> <hdr sap> <hdr hex>
            <hdr poc> <csbk table>                -> the generated bursts as tracker symbols, `;`-separated
 ```
+frag.crc9ok <rate> <last 0|1> <info hex> <calculated crc9>  -> 1 | 0   (`crc9_ok` of the block read as confirmed)
 crc9 table: `-` or `,`-separated `<data hex>:<crc32 field>:<crc9>`; csbk table: `-` or `<btf>:<hex>,…`.
 The checksums are abstract in the model, so their values on the arguments that occur are inputs.
 -/
@@ -81,6 +82,11 @@ def fragOp (op : String) (args : List String) : Option String :=
     match generate C raw r payload { hdr := { btf := hbtf, a := ha, sap := hsap, raw := hraw }, poc := hpoc } k cc with
     | .error e => some (errStr e)
     | .ok bursts => some (";".intercalate (bursts.map symStr))
+  | "frag.crc9ok", [r, last, ib, cv] => do
+    -- the indicator the model has: `crc9_ok` of a received confirmed block, the calculated CRC-9 being an input
+    let r ← rateOf r; let last ← flag last; let ib ← hexToBytes ib; let cv ← cv.toNat?
+    let C : Crc := { crc32 := fun _ => 0, crc9 := fun _ _ _ _ => cv }
+    some (if crc9Ok C r (resolve true last) (bytesToBits ib) then "1" else "0")
   | _, _ => none
 
 /-- generator operations are stateless; everything else goes to the tracker -/
